@@ -7,7 +7,7 @@ import ast
 import re
 
 from .core import (AnalysisError, dotted, norm, walk_local, const_int,
-                   call_name, stmts_of)
+                   call_name, stmts_of, calls_in)
 from .dataflow import local_defs
 
 NAME_RE = re.compile(r"^(x|y|z)(min|max|s|cs|d|_idx|_chunk_idx|_slicing|"
@@ -88,6 +88,17 @@ class AxisChecker:
             return "XYZ"
         if isinstance(node, ast.Name) and node.id in self.local_vec:
             return self.local_vec[node.id]
+        if isinstance(node, ast.Name) and node.id in self.fn.params and \
+                node.id not in ("self", "cls"):
+            o = self._param_order(node.id)
+            if o:
+                return o
+        if isinstance(node, ast.Attribute) and \
+                isinstance(node.value, ast.Name) and \
+                node.value.id == "self" and self.fn.cls is not None:
+            o = self._property_order(node.attr)
+            if o:
+                return o
         if t in CRS_VECTORS:
             return "CRS"
         if t in COORD6:
@@ -150,6 +161,90 @@ class AxisChecker:
                 if key == ("COL", "ROW", "SLC"):
                     return "CRS"
         return None
+
+    def _property_order(self, attr):
+        """Order of `self.<attr>` when <attr> is a property of the class (or
+        a base) whose body is one return of an ordered expression."""
+        repo = self.fn.module.repo
+        for cc in repo.mro(self.fn.cls):
+            meth = cc.methods.get(attr)
+            if meth is None:
+                continue
+            if not any("property" in norm(d)
+                       for d in meth.node.decorator_list):
+                return None
+            rets = [x for x in walk_local(meth.node)
+                    if isinstance(x, ast.Return) and x.value is not None]
+            if len(rets) != 1:
+                return None
+            if getattr(self, "_depth", 0) >= 3:
+                return None
+            sub = AxisChecker.__new__(AxisChecker)
+            sub.fn, sub.col, sub.rule = meth, self.col, self.rule
+            sub.ms = meth.module.short
+            sub.defs = local_defs(meth.node)
+            sub.inferred, sub._zip_seen, sub.n = {}, set(), 0
+            sub.local_vec = {}
+            sub._depth = getattr(self, "_depth", 0) + 1
+            sub._porder = {}
+            return sub.vec_order(rets[0].value)
+        return None
+
+    def _param_order(self, pname):
+        """Order of a sequence parameter without a conventional name: the
+        order every call site in the package passes (None when the call sites
+        disagree, pass nothing ordered, or there is none)."""
+        cache = self.__dict__.setdefault("_porder", {})
+        if pname in cache:
+            return cache[pname]
+        cache[pname] = None
+        depth = getattr(self, "_depth", 0)
+        if depth >= 3:
+            return None
+        fn = self.fn
+        params = list(fn.params)
+        repo = fn.module.repo
+        from .rules_more4 import resolve_pkg_call
+        orders = set()
+        leaf = fn.qualname.split(".")[-1]
+        for m in repo.modules.values():
+            if leaf not in m.source:
+                continue
+            for g in m.functions.values():
+                if g is fn:
+                    continue
+                for c in calls_in(g.node):
+                    if (call_name(c) or "").split(".")[-1] != leaf:
+                        continue
+                    h = resolve_pkg_call(g, c)
+                    if h is None or h.key != fn.key:
+                        continue
+                    ps = params[1:] if params and params[0] in (
+                        "self", "cls") and isinstance(
+                        c.func, ast.Attribute) else params
+                    arg = None
+                    if pname in ps and ps.index(pname) < len(c.args):
+                        arg = c.args[ps.index(pname)]
+                    for k in c.keywords:
+                        if k.arg == pname:
+                            arg = k.value
+                    if arg is None or isinstance(arg, ast.Starred):
+                        orders.add(None)
+                        continue
+                    sub = AxisChecker.__new__(AxisChecker)
+                    sub.fn, sub.col, sub.rule = g, self.col, self.rule
+                    sub.ms = g.module.short
+                    sub.defs = local_defs(g.node)
+                    sub.inferred, sub._zip_seen, sub.n = {}, set(), 0
+                    sub.local_vec = {}
+                    sub._depth = depth + 1
+                    sub._porder = {}
+                    orders.add(sub.vec_order(arg))
+        if len(orders) == 1:
+            o = orders.pop()
+            if o in ("XYZ", "ZYX"):
+                cache[pname] = o
+        return cache[pname]
 
     def layout(self, node):
         if isinstance(node, ast.Name):
